@@ -15,8 +15,11 @@ import traceback
 
 VERIF = os.path.dirname(os.path.dirname(os.path.abspath(__file__)))
 REPO = os.environ.get("VERIF_REPO", "/repo")
-TARGET = os.path.join(VERIF, "target")
-HARNESS = os.path.join(VERIF, "harness")
+# The three overrides below exist only for trying seeded changes in isolation (tools/try_mutant.sh): a copy of the
+# harness pointing at a scratch worktree, its own target directory, and a scratch directory for evidence / replay files.
+TARGET = os.environ.get("VERIF_TARGET", os.path.join(VERIF, "target"))
+HARNESS = os.environ.get("VERIF_HARNESS", os.path.join(VERIF, "harness"))
+OUT = os.environ.get("VERIF_OUT", VERIF)
 SHIM = os.path.join(TARGET, "libslxshim.so")
 GUARD = "smlxl_storage_layout_extractor_verif"
 NCPU = min(16, os.cpu_count() or 4)
@@ -316,13 +319,13 @@ def finish(prop, tier, seed, result, level, rule, t0, assumptions, min_judged=1,
             known_hit[k["signature"]][1] += v["count"]
         else:
             new.append(v)
-    os.makedirs(os.path.join(VERIF, "replay", prop), exist_ok=True)
-    os.makedirs(os.path.join(VERIF, "evidence"), exist_ok=True)
+    os.makedirs(os.path.join(OUT, "replay", prop), exist_ok=True)
+    os.makedirs(os.path.join(OUT, "evidence"), exist_ok=True)
     lines = []
     for sig, (k, n) in sorted(known_hit.items()):
         lines.append("KNOWN-FINDING: property=%s %s [signature=%s, hits=%d]" % (prop, k["what"], sig, n))
     for v in new:
-        path = os.path.join(VERIF, "replay", prop, sha([v["signature"], v["case"]]) + ".json")
+        path = os.path.join(OUT, "replay", prop, sha([v["signature"], v["case"]]) + ".json")
         with open(path, "w") as f:
             json.dump({"property": prop, "signature": v["signature"], "what": v["what"], "case": v["case"],
                        "seed": seed, "tier": tier}, f, indent=1)
@@ -356,7 +359,7 @@ def finish(prop, tier, seed, result, level, rule, t0, assumptions, min_judged=1,
         "property_id": prop, "tier": tier, "seed": seed, "level": level, "coverage": coverage,
         "assumptions": assumptions, "wall_s": round(time.time() - t0, 2), "violations": len(new),
     }
-    with open(os.path.join(VERIF, "evidence", prop + ".json"), "w") as f:
+    with open(os.path.join(OUT, "evidence", prop + ".json"), "w") as f:
         json.dump(ev, f, indent=1, sort_keys=True)
     for l in lines:
         print(l)
